@@ -22,29 +22,16 @@ theorem preloaded_meh_only (es : List Ev) (h : ∀ e ∈ es, ∃ m, e = Ev.meh f
 theorem cmh_trace_meh : ∀ (fuel : Nat) (w : W) (msg : String),
     ∃ es, (callMasterHandler fuel w msg).1.trace = es ++ (Ev.meh false msg :: w.trace) ∧
       ∀ e ∈ es, ∃ m, e = Ev.meh false m := by
-  intro fuel
-  induction fuel with
-  | zero => intro w msg; exact ⟨[], rfl, by simp⟩
-  | succ n ih =>
-    intro w msg
-    unfold callMasterHandler
+  intro fuel w msg
+  cases fuel with
+  | zero => exact ⟨[], rfl, by simp⟩
+  | succ n =>
+    rw [callMasterHandler_succ]
     split
     · exact ⟨[], rfl, by simp⟩
     · exact ⟨[], by show (errExit _).trace = _; rw [trace_errExit]; rfl, by simp⟩
     · split
-      · simp only []
-        obtain ⟨es, he, hq⟩ := ih (reenter (emit w (.meh false msg))) "mehagain"
-        have he' : (callMasterHandler n (reenter (emit w (.meh false msg))) "mehagain").1.trace =
-            (es ++ [Ev.meh false "mehagain"]) ++ (Ev.meh false msg :: w.trace) := by
-          rw [he]; simp; rfl
-        have hq' : ∀ e ∈ es ++ [Ev.meh false "mehagain"], ∃ m, e = Ev.meh false m := by
-          intro e he
-          rcases List.mem_append.mp he with h | h
-          · exact hq e h
-          · simp at h; exact ⟨_, h⟩
-        split
-        · exact ⟨_, he', hq'⟩
-        · exact ⟨_, by show (errExit _).trace = _; rw [trace_errExit]; exact he', hq'⟩
+      · exact ⟨[], by show (errExit _).trace = _; rw [trace_errExit]; rfl, by simp⟩
       · exact ⟨[], rfl, by simp⟩
 
 theorem errorHandler_trace_meh (w : W) (msg : String) (h1 : w.inError = false) (h2 : w.inMeh = false) :
